@@ -7,7 +7,10 @@
 class CartesianR2_SonnendruckerGyro_CzarnyGeometry : public SourceTerm
 {
 public:
-    CartesianR2_SonnendruckerGyro_CzarnyGeometry() = default;
+    CartesianR2_SonnendruckerGyro_CzarnyGeometry()
+    {
+        initializeGeometry();
+    }
     explicit CartesianR2_SonnendruckerGyro_CzarnyGeometry(const double& Rmax,
                                                           const double& inverse_aspect_ratio_epsilon,
                                                           const double& ellipticity_e);
